@@ -250,7 +250,14 @@ def encode_framing_rules(ck, F, b, t, wr, rd, enc):
             "--puncturing every word is followed by stale/zero bytes" % repr(written)[:160])
     # fill loop: zip(codeword.iter(), codeword_buf.iter_mut()) *y = x.is_one().into()
     asg = [e for e in t.events if e.callee == "<assign>" and e.loops and len(e.loops) >= 2]
-    okf = any("is_one" in repr(e.args[1]) and "zip" in repr(e.loops[-1]) and "puncture" in repr(e.loops[-1]) for e in asg)
+    from ..idioms import zip_components
+    okf = False
+    for e in asg:
+        comps = zip_components(e.loops[-1][2]) if e.loops[-1][0] == "iter" and len(e.loops[-1]) > 2 else None
+        # the (punctured) codeword and the byte buffer are walked whole and in lockstep (no skip / rev / step between them)
+        if comps is not None and len(comps) == 2 and "is_one" in repr(e.args[1]) and sum("puncture" in repr(c_) and repr(CW) in repr(c_) for c_ in comps) == 1 \
+                and sum("from_elem" in repr(c_) and "puncture" not in repr(c_) for c_ in comps) == 1:
+            okf = True
     ck.inst("L4", "encode:bytes-from-codeword", okf, b.span, "the bytes refreshed are is_one() of the (punctured) codeword's elements, in order (zip with the buffer)")
     # input word: buffer of k = n - rows bytes, read_exact, break only on UnexpectedEof
     al = [e for e in t.events if e.callee.endswith("from_elem")]
@@ -259,6 +266,35 @@ def encode_framing_rules(ck, F, b, t, wr, rd, enc):
     brk = [e for e in t.events if e.callee == "<break>" and any(l[0] == "loop" for l in e.loops)]
     eof = len(brk) == 1 and "UnexpectedEof" in repr(brk[0].guards) and "read_exact" in repr(brk[0].guards)
     one_each = all(len(e.loops) == 1 and e.loops[0][0] == "loop" for e in (rd[0], enc[0], wr[0]))
+    # one iteration of the word loop as a transformer over the outcomes of its calls
+    from ..transformer import StepReading, compare, ANY
+    from itertools import product
+    E = lambda x: ("Err", x)
+    pts = []
+    for R, pz, pres, wres in product((("Ok", ()), E("EOF"), E("Other")), ("None", ("Some", "PAT")), (("Ok", "PCW"), E("PunctErr")), (("Ok", ()), E("WriteErr"))):
+        pts.append(({"self.puncturing": pz, "$read": R, "$punct": pres, "$write": wres},
+                    {"read_exact": lambda *a, R=R: R, "kind": lambda e_: "UnexpectedEof" if e_ == "EOF" else "OtherKind",
+                     "parse_puncturing_pattern": lambda *a: ("Ok", "P"), "new": lambda *a: "PUNCTURER", "encode": lambda *a: "CW",
+                     "puncture": lambda *a, pres=pres: pres, "write_all": lambda *a, wres=wres: wres}))
+
+    def word_spec(v):
+        cs = [("read_exact", ANY, ANY)]
+        if v["$read"] == E("EOF"):
+            return ("<break>",), {}, cs
+        if v["$read"][0] == "Err":
+            return v["$read"], {}, cs
+        cs.append(("encode", ANY, ANY))
+        if v["self.puncturing"] != "None":
+            cs.append(("puncture", "PUNCTURER", "CW"))
+            if v["$punct"][0] == "Err":
+                return v["$punct"], {}, cs
+        cs.append(("write_all", ANY, ANY))
+        return (v["$write"] if v["$write"][0] == "Err" else None), {}, cs
+    rdg = StepReading(t, None, strip_loop=lambda l: l[0] == "loop", what="encode (one word)",
+                      ignore=lambda it: it["kind"] == "<assign>" and len(it["loops"]) >= 2)
+    compare(ck, "L4", "encode:word-loop", rdg, pts, word_spec, b.span,
+            "per iteration: read_exact of one word; UnexpectedEof ends the loop cleanly, any other read error is returned; otherwise encode, "
+            "puncture when a pattern was given (its error returned), one write_all (its error returned)")
     ck.inst("L4", "encode:framing", kbuf and eof and one_each, b.span,
             "information words of k = num_cols - num_rows bytes are read with read_exact; the loop ends only on UnexpectedEof (a partial trailing "
             "word is dropped); one encode and one write per word [%s %s %s]" % (kbuf, eof, one_each))
